@@ -3,7 +3,7 @@
     unused slot 0), with and without MP, through both conversions. *)
 From Coq Require Import Ascii String List Bool Arith ZArith Lia.
 From PTBase Require Import Exn PyStr.
-From P Require Import Lang Convert SectionLemmas SectionOrder MopLemmas ConvertLemmas ConvertLemmas2 WaiweraJson JsonLemmas JsonLemmas2.
+From P Require Import Lang Convert SectionLemmas SectionOrder MopLemmas ConvertLemmas ConvertLemmas2 WaiweraJson JsonLemmas JsonLemmas2 SourceJson.
 From Gen Require Import GenConvert.
 Import ListNotations.
 
@@ -191,3 +191,26 @@ Lemma ex_initial_boundary :
                                            str_eqb b2 (s2l "  c 1") && Z.eqb v2 5 && z_list_eqb c2 [1%Z]
      | _ => false end) = true.
 Proof. vm_compute. split; reflexivity. Qed.
+
+(** * source values: the converted example model (MASS producer with a rate table, CO2 -> COM2 injector listed twice) *)
+Definition ex_vals : list gval :=
+  [ {| v_gx := (-3, 2)%Z; v_ex := (0, 1)%Z; v_fg := (0, 1)%Z; v_hg := Some (-1, 1)%Z; v_time := [(0, 1); (10, 1)]%Z; v_rate := [(-1, 1); (-2, 1)]%Z; v_enth := [] |};
+    gval0;
+    {| v_gx := (10, 1)%Z; v_ex := (84000, 1)%Z; v_fg := (0, 1)%Z; v_hg := None; v_time := []; v_rate := []; v_enth := [] |};
+    gval0 ].
+Definition ex_sin (d' : data) : sin :=
+  {| s_x := {| x_d := d'; x_geo := x_geo ex_xin; x_natm := 1%Z; x_atmos := (1000, 1)%Z; x_eos := EANone; x_ninc := 2; x_diff_ok := true;
+               x_default := 0%Z; x_indom := []; x_incon := [] |};
+     s_vals := ex_vals; s_tracer := false; s_numeq := 2%Z; s_mop12 := 1%Z |}.
+Definition jv_is_num (v : option jv) (q : Z * Z) : bool := match v with Some (JNum p) => Z.eqb (fst p) (fst q) && Z.eqb (snd p) (snd q) | _ => false end.
+Lemma ex_source_values :
+  on_ok (convert_to_TOUGH2 false ex_au) (fun d' => on_ok (sources_full (ex_sin d')) (fun l =>
+    match l with
+    | [a; b; c] =>
+        match jget "rate" a with Some (JTable [_; _]) => true | _ => false end &&
+        match jget "separator" a with Some (JObj _) => true | _ => false end &&
+        match jget "interpolation" a with Some (JStr "step") => true | _ => false end &&
+        jv_is_num (jget "rate" b) (10, 1)%Z && jv_is_num (jget "enthalpy" b) (84000, 1)%Z &&
+        match jget "component" b, jget "cell" b, jget "cell" c with Some (JInt 2), Some (JInt 1), Some (JInt 1) => true | _, _, _ => false end
+    | _ => false end)) = true.
+Proof. vm_compute. reflexivity. Qed.
